@@ -237,3 +237,25 @@ Theorem xsi_type_dropped_refuted :
   /\ ParserCorr.outcome_eqb (Parser.parse cfg_strict conv_c05 u_xdrop (Some root_xdrop) pevs_xdrop) (Parser.Ok o_xdrop []) = false
   /\ ParserCorr.outcome_eqb composition_xdrop (Parser.parse cfg_strict conv_c05 u_xdrop (Some root_xdrop) pevs_xdrop) = true.
 Proof. repeat split; vm_compute; reflexivity. Qed.
+
+(* ---------------------------------------------------------------- attribute-map values of the form prefix:local *)
+(* the instance with the colon removed from the value: inside the guards *)
+Definition o_mapq_plain : value :=
+  match o_mapq with
+  | VObj k [(n0, VMap [(key, v)])] => VObj k [(n0, VMap [(key, filter (fun ch => negb (N.eqb ch 58)) v)])]
+  | x => x
+  end.
+(* R(m={'k': 'ns0:x'}), class R in namespace urn:a: the value is written literally, the writer binds ns0 to urn:a
+   itself, and ParserUtils.parse_any_attribute expands the value to '{urn:a}x'.  The metadata is inside wf_model;
+   the instance is outside fits only by the clause map_value_ok (no colon in the value: with the colon removed it
+   fits); the REAL handler events read as the tree the events mean (keeping the attribute order), and the faithful
+   parser model returns another instance for them *)
+Theorem any_attribute_prefix_refuted :
+  wf_model u_mapq root_mapq = true
+  /\ fits conv_c05 u_mapq ok_c05 py_isspace 1 root_mapq o_mapq = false
+  /\ fits conv_c05 u_mapq ok_c05 py_isspace 1 root_mapq o_mapq_plain = true
+  /\ (match expected_of conv_c05 (EventGen.generate false conv_c05 u_mapq o_mapq) with
+      | Some e => reads_b true e pevs_mapq | None => false end) = true
+  /\ ParserCorr.outcome_eqb (Parser.parse cfg_strict conv_c05 u_mapq (Some root_mapq) pevs_mapq) (Parser.Ok o_mapq []) = false
+  /\ (match Parser.parse cfg_strict conv_c05 u_mapq (Some root_mapq) pevs_mapq with Parser.Ok _ [] => true | _ => false end) = true.
+Proof. repeat split; vm_compute; reflexivity. Qed.
